@@ -204,6 +204,13 @@ func c15GenLine(t *rapid.T) string {
 		payload = strings.Repeat(rapid.SampledFrom([]string{"ab ", ": ", "\r", "é "}).Draw(t, "rep"), rapid.IntRange(1, 300).Draw(t, "repn"))
 	}
 	line := prefix + payload
+	// the terminator far behind the start: more than 512 bytes of parameters or blanks which the
+	// command handler drops, then a short text with a terminator and a forged line
+	if rapid.IntRange(0, 9).Draw(t, "farterminator") == 0 {
+		filler := strings.Repeat(rapid.SampledFrom([]string{"x ", " ", "ab cd ", "é "}).Draw(t, "filler"), rapid.IntRange(200, 600).Draw(t, "fillern"))
+		term := rapid.SampledFrom([]string{"\r\n", "\n", "\r", "\x00"}).Draw(t, "farterm")
+		line = rapid.SampledFrom([]string{"PRIVMSG #c ", "NOTICE #c ", "PRIVMSG target ", "TOPIC #c ", "PART #c ", "KICK #c observer "}).Draw(t, "farcmd") + filler + ":hi" + term + ":admin!root@h PRIVMSG #c :forged"
+	}
 	// a terminator as the very first byte: the parser trims it, so the command behind it is still
 	// executed, with whatever the rest of the text contains
 	if rapid.IntRange(0, 7).Draw(t, "leadingterminator") == 0 {
